@@ -21,7 +21,7 @@ from simkit.runner import Outcome
 PROPERTY = 'C15'
 LEVEL = 'exploration'
 SEEDS_EXH = list(range(24))
-PLAN = {'quick': [('exh', 8 * len(SEEDS_EXH)), ('hist', 3000), ('sim', 600)],
+PLAN = {'quick': [('exh', 8 * len(SEEDS_EXH)), ('hist', 6000), ('sim', 1000)],
         'thorough': [('exh', 8 * len(SEEDS_EXH)), ('hist', 300000), ('sim', 40000)]}
 TIMEOUT = {'quick': 900, 'thorough': 6 * 3600}
 RECHECK = 100
